@@ -115,6 +115,22 @@ def rg_part(chk, tier, recs):
                                 args += [sc.path(d)]
                             jobs.append({"args": args})
                             meta.append((k, "implicit" if naming == "mixed" else naming, mode, strat + ("+mixed" if naming == "mixed" else "") + ("+" + "".join(ctx) if ctx else "")))
+        # multi-line replacement with a pattern whose optional tail reaches into the line after the match (the printers
+        # re-find the matches with some look-ahead): the NUL that follows the printed lines must not come out with a group
+        lead = b"".join(b"x%06d filler filler filler filler\n" % i for i in range(1900))      # beyond the sniffed 64 KiB
+        for k2, b in enumerate([lead + b"m\n" + b"y" * 60 + b"\x00" + b"y" * 120 + b"\nlast\n",
+                                lead + b"m\n" + b"y" * 100 + b"\x00tail\n",
+                                b"m\n" + b"y" * 90 + b"\x00" + b"y" * 90 + b"\nm\n"], start=len(inputs)):
+            d = "d%d" % k2
+            sc.write(d + "/f", b)
+            inputs.append(b)
+            for naming in ("implicit", "explicit"):
+                for mode, fl in (("default", []), ("binary", ["--binary"])):
+                    for strat in ("--mmap", "--no-mmap"):
+                        args = ["--no-config", "--color", "never", "-j1", "-N", "-I", "--no-heading", strat, "-U", "-r", "[$0]"] + fl + ["-e", "m(\\n.{0,150}$)?"]
+                        args += [sc.path(d, "f")] if naming == "explicit" else [sc.path(d)]
+                        jobs.append({"args": args})
+                        meta.append((k2, naming, mode, strat + "+repl"))
         outs = rgrun.run_many(jobs)
         chk.evaluations += len(jobs)
         runs = []
@@ -122,8 +138,11 @@ def rg_part(chk, tier, recs):
             b = inputs[k]
             body = b[:-1].split(b"\n") if b.endswith(b"\n") else b.split(b"\n")
             summary = ("count" if strat.endswith("+-c") else "list" if strat.endswith("+-l") else "fwm" if strat.endswith("+--files-without-match")
-                       else "count0" if strat.endswith("+-c--include-zero") else "countm0" if strat.endswith("+--count-matches--include-zero") else "none")
-            if summary == "none":
+                       else "count0" if strat.endswith("+-c--include-zero") else "countm0" if strat.endswith("+--count-matches--include-zero")
+                       else "repl" if strat.endswith("+repl") else "none")
+            if summary == "repl":
+                toks = []
+            elif summary == "none":
                 toks = tokens(so, body)
             else:
                 toks = []
